@@ -92,6 +92,8 @@ type Ctx struct {
 	mu         sync.Mutex
 	defined    map[string]string
 	origin     map[string]string // heap array symbol -> heap key (type|path)
+	dataMemo   map[string]map[string]bool
+	sxMemo     map[string]*sx
 }
 
 // FreeSymbols: the declared (free) symbols the terms depend on, looking through definitions.
@@ -566,4 +568,317 @@ func (c *Ctx) LiteralsOf(t Term) []string {
 	}
 	walk(t.S, 0)
 	return out
+}
+
+// DataSymbols: the free symbols the terms depend on through data positions only:
+// the condition of an `ite` is skipped (explicit flows; which of two public values
+// was chosen is not tracked), definitions are looked through.
+func (c *Ctx) DataSymbols(ts ...Term) map[string]bool {
+	c.mu.Lock()
+	defer c.mu.Unlock()
+	c.index()
+	if c.dataMemo == nil {
+		c.dataMemo = map[string]map[string]bool{}
+	}
+	out := map[string]bool{}
+	for _, t := range ts {
+		for s := range c.dataSyms(t.S, 0) {
+			out[s] = true
+		}
+	}
+	return out
+}
+
+type sx struct {
+	atom string
+	list []*sx
+}
+
+func parseSx(toks []string, i int) (*sx, int) {
+	if i >= len(toks) {
+		return &sx{}, i
+	}
+	if toks[i] != "(" {
+		return &sx{atom: toks[i]}, i + 1
+	}
+	n := &sx{list: []*sx{}}
+	i++
+	for i < len(toks) && toks[i] != ")" {
+		var ch *sx
+		ch, i = parseSx(toks, i)
+		n.list = append(n.list, ch)
+	}
+	return n, i + 1
+}
+
+func (n *sx) String() string {
+	if n.list == nil {
+		return n.atom
+	}
+	var parts []string
+	for _, c := range n.list {
+		parts = append(parts, c.String())
+	}
+	return "(" + strings.Join(parts, " ") + ")"
+}
+
+func (n *sx) head() string {
+	if n.list != nil && len(n.list) > 0 && n.list[0].list == nil {
+		return n.list[0].atom
+	}
+	return ""
+}
+
+// bodyOf: the parsed body of a definition (nil for declared symbols / operators).
+func (c *Ctx) bodyOf(sym string) *sx {
+	idx, ok := c.byName[sym]
+	if !ok || !c.info[idx].isDef {
+		return nil
+	}
+	if c.sxMemo == nil {
+		c.sxMemo = map[string]*sx{}
+	}
+	if b, ok := c.sxMemo[sym]; ok {
+		return b
+	}
+	toks := sexpTokens(c.lines[idx])
+	// ( define-fun name ( ) sort body )
+	root, _ := parseSx(toks, 0)
+	var body *sx
+	if root.list != nil && len(root.list) >= 5 {
+		body = root.list[4]
+	}
+	c.sxMemo[sym] = body
+	return body
+}
+
+// unfold: follow definitions while the node is a defined atom.
+func (c *Ctx) unfold(n *sx) *sx {
+	for k := 0; k < 64 && n != nil && n.list == nil; k++ {
+		b := c.bodyOf(n.atom)
+		if b == nil {
+			return n
+		}
+		n = b
+	}
+	return n
+}
+
+func (c *Ctx) sameTerm(a, b *sx, depth int) bool {
+	if a != nil && b != nil && a.list == nil && b.list == nil && a.atom == b.atom {
+		return true
+	}
+	a, b = c.unfold(a), c.unfold(b)
+	if a == nil || b == nil {
+		return false
+	}
+	if a.list == nil || b.list == nil {
+		return a.list == nil && b.list == nil && a.atom == b.atom
+	}
+	if len(a.list) != len(b.list) || depth > 6 {
+		return false
+	}
+	for i := range a.list {
+		if !c.sameTerm(a.list[i], b.list[i], depth+1) {
+			return false
+		}
+	}
+	return true
+}
+
+func isLitSx(n *sx) bool {
+	return n != nil && n.list != nil && len(n.list) == 3 && n.list[0].atom == "_" && strings.HasPrefix(n.list[1].atom, "bv")
+}
+
+// selectOfStore: the value read by (select arr idx) when arr is a chain of
+// stores whose indices are syntactically equal to idx (returns it) or literal
+// and different from a literal idx (skipped).
+func (c *Ctx) selectOfStore(arr, idx *sx, depth int) (*sx, bool) {
+	arr = c.unfold(arr)
+	if arr == nil || depth > 200 {
+		return nil, false
+	}
+	if depth > 0 && (arr.list == nil || arr.head() != "store") {
+		// stores at other indices were skipped: what remains is a read of the rest
+		return &sx{list: []*sx{{atom: "select"}, arr, idx}}, true
+	}
+	if arr.list == nil {
+		return nil, false
+	}
+	if arr.head() == "store" && len(arr.list) == 4 {
+		if c.sameTerm(arr.list[2], idx, 0) {
+			return arr.list[3], true
+		}
+		i1, i2 := c.unfold(arr.list[2]), c.unfold(idx)
+		if isLitSx(i1) && isLitSx(i2) && i1.String() != i2.String() {
+			return c.selectOfStore(arr.list[1], idx, depth+1)
+		}
+		// ASSUMED for the dependency analysis: a slice id freshly returned by a call
+		// that is not followed is not one of the ids the code stored under before
+		if i2 != nil && i2.list == nil && strings.Contains(i2.atom, "_r") && strings.Contains(i2.atom, "__id") && !c.sameTerm(i1, i2, 0) {
+			return c.selectOfStore(arr.list[1], idx, depth+1)
+		}
+	}
+	return nil, false
+}
+
+// simplifySelect reduces (select arr idx) through store chains, also when arr is
+// itself a reducible select (nested arrays); returns n itself when nothing applies.
+func (c *Ctx) simplifySelect(n *sx, depth int) *sx {
+	if n == nil || n.head() != "select" || len(n.list) != 3 || depth > 50 {
+		return n
+	}
+	arr := c.unfold(n.list[1])
+	if arr != nil && arr.head() == "select" {
+		if r := c.simplifySelect(arr, depth+1); r != arr {
+			arr = r
+		}
+	}
+	if arr != nil && arr.head() == "ite" && len(arr.list) == 4 {
+		// select distributes over a merge of two heaps
+		mk := func(a *sx) *sx {
+			return &sx{list: []*sx{{atom: "select"}, a, n.list[2]}}
+		}
+		return &sx{list: []*sx{{atom: "ite"}, arr.list[1], mk(arr.list[2]), mk(arr.list[3])}}
+	}
+	if v, ok := c.selectOfStore(arr, n.list[2], 0); ok {
+		u := c.unfold(v)
+		if u != nil && u.head() == "select" {
+			return c.simplifySelect(u, depth+1)
+		}
+		return v
+	}
+	return n
+}
+
+func (c *Ctx) dataSyms(expr string, depth int) map[string]bool {
+	out := map[string]bool{}
+	toks := sexpTokens(expr)
+	i := 0
+	for i < len(toks) {
+		var n *sx
+		n, i = parseSx(toks, i)
+		c.depsOf(n, out, 0)
+	}
+	return out
+}
+
+func (c *Ctx) depsOf(n *sx, out map[string]bool, depth int) {
+	if n == nil || depth > 2000 {
+		return
+	}
+	if n.list == nil {
+		tok := n.atom
+		if tok == "" || tok[0] == '#' || (tok[0] >= '0' && tok[0] <= '9') {
+			return
+		}
+		idx, ok := c.byName[tok]
+		if !ok {
+			return
+		}
+		if !c.info[idx].isDef {
+			out[tok] = true
+			return
+		}
+		if m, ok := c.dataMemo[tok]; ok {
+			for s := range m {
+				out[s] = true
+			}
+			return
+		}
+		c.dataMemo[tok] = map[string]bool{}
+		m := map[string]bool{}
+		c.depsOf(c.bodyOf(tok), m, depth+1)
+		c.dataMemo[tok] = m
+		for s := range m {
+			out[s] = true
+		}
+		return
+	}
+	switch n.head() {
+	case "_", "as":
+		return
+	case "ite":
+		if len(n.list) == 4 {
+			c.depsOf(n.list[2], out, depth+1)
+			c.depsOf(n.list[3], out, depth+1)
+			return
+		}
+	case "select":
+		if len(n.list) == 3 {
+			if v := c.simplifySelect(n, 0); v != n {
+				c.depsOf(v, out, depth+1)
+				return
+			}
+		}
+	}
+	start := 0
+	if n.head() != "" {
+		start = 1 // the operator / function symbol itself is not data
+	}
+	for _, ch := range n.list[start:] {
+		c.depsOf(ch, out, depth+1)
+	}
+}
+
+func sexpTokens(s string) []string {
+	var toks []string
+	i := 0
+	for i < len(s) {
+		ch := s[i]
+		switch {
+		case ch == '(' || ch == ')':
+			toks = append(toks, string(ch))
+			i++
+		case ch == ' ' || ch == '\n' || ch == '\t':
+			i++
+		case ch == '|':
+			j := strings.IndexByte(s[i+1:], '|')
+			if j < 0 {
+				toks = append(toks, s[i:])
+				i = len(s)
+			} else {
+				toks = append(toks, s[i:i+j+2])
+				i += j + 2
+			}
+		default:
+			j := i
+			for j < len(s) && s[j] != '(' && s[j] != ')' && s[j] != ' ' && s[j] != '\n' && s[j] != '\t' {
+				j++
+			}
+			toks = append(toks, s[i:j])
+			i = j
+		}
+	}
+	return toks
+}
+
+// Explain unfolds definitions a few levels (debugging aid).
+func (c *Ctx) Explain(ts []Term, depth int) string {
+	c.mu.Lock()
+	defer c.mu.Unlock()
+	c.index()
+	var b strings.Builder
+	seen := map[string]bool{}
+	var walk func(s string, d int)
+	walk = func(s string, d int) {
+		for _, sym := range symbolsOf(s) {
+			idx, ok := c.byName[sym]
+			if !ok || seen[sym] || !c.info[idx].isDef || d > depth {
+				continue
+			}
+			seen[sym] = true
+			l := c.lines[idx]
+			if len(l) > 260 {
+				l = l[:260] + "..."
+			}
+			b.WriteString("\n      " + strings.Repeat(" ", d) + l)
+			walk(c.lines[idx][strings.Index(c.lines[idx], " () ")+4:], d+1)
+		}
+	}
+	for _, t := range ts {
+		b.WriteString("\n    " + t.S)
+		walk(t.S, 0)
+	}
+	return b.String()
 }
